@@ -118,19 +118,7 @@ def run(ctx, R, tier):
     nd_stmts = {id(enclosing_stmt(c)) for c in nd_calls}
     wait_nodes = [n for n in cfg.nodes if n.kind == "stmt" and any(unparse(c.func).endswith("job_available.wait") for c in calls_in(n))]
 
-    def can_raise(edge):
-        if edge.kind != "exc":
-            return True
-        src = edge.src
-        if src.kind == "reraise":
-            return True
-        for c in calls_in(src):
-            esc = es.call(c, {"f": f, "record": False, "caught": None, "vars": {}})
-            if esc:
-                return True
-        if isinstance(src.ast, (ast.Raise, ast.Assert)):
-            return True
-        return False
+    can_raise = ctx.exc_filter(f)
     ok = cfg.all_paths_pass(job_nodes, lambda n: id(n.ast) in nd_stmts, edge_ok=can_raise,
                             targets=[cfg.exit, cfg.raise_exit] + wait_nodes)
     R.check(ok, "C05-R2", "Worker.run|job->notify_done", "every path from self.job() reaches pool.notify_done(self) before the next wait / exit",
